@@ -75,7 +75,7 @@ def failure_tags(unit, rec):
         if ctags:
             return list(ctags)
         return sorted(set((f.safety + f.tags) if f else []))
-    if kind == 'postcondition' and f:
+    if kind in ('postcondition', 'closure_postcondition') and f:
         return sorted(set(f.tags))
     # a failing proof step (assert, or the precondition of a lemma call) inside a woven function: the step serves
     # the function's clauses, so it carries the function's property tags as well as its safety tags
